@@ -406,12 +406,12 @@ func c17GenOp(r *rig.Rand, keys []string, expiry bool) c17Op {
 	k := keys[r.Intn(len(keys))]
 	ttl := func() uint32 {
 		if expiry {
-			switch r.Intn(4) {
+			switch r.Intn(6) {
 			case 0:
 				return 0
-			case 1:
+			case 1, 2, 3:
 				return 1
-			case 2:
+			case 4:
 				return 2
 			}
 			return 3600
@@ -489,8 +489,9 @@ func c17GenSeq(r *rig.Rand, name string, expiry bool) c17Desc {
 	sleeps := map[int]int{}
 	if expiry {
 		n = 10 + r.Intn(20)
-		sleeps[n/3] = 1100 + 1000*r.Intn(2)
-		sleeps[2*n/3] = 1100 + 1000*r.Intn(2)
+		// an entry stored with TTL t during second T is alive through second T+t
+		sleeps[n/3] = 2100 + 1000*r.Intn(2)
+		sleeps[2*n/3] = 2100
 	}
 	for i := 0; i < n; i++ {
 		if ms, ok := sleeps[i]; ok {
@@ -939,7 +940,8 @@ func c17Concurrent(e *env, w *rig.Writer, descs []c17Desc, attempts int) {
 
 func c17(e *env) {
 	w := rig.NewWriter(e.out, "C17", e.tier, e.seed)
-	w.Shards = 8 // case files are evaluated in parallel by ./check
+	w.Res.Cases = []rig.Case{} // never null in result.json, even when every configuration failed
+	w.Shards = 8               // case files are evaluated in parallel by ./check
 	if e.tier == "thorough" {
 		w.Shards = 16
 	}
@@ -1050,7 +1052,7 @@ func c17(e *env) {
 
 	// expiry sequences sleep: run them in the background, each on its own instance
 	plain, expCorpus := c17Corpus()
-	nExp, nSeq := 6, 300
+	nExp, nSeq := 10, 200
 	if e.tier == "thorough" {
 		nExp, nSeq = 60, 4000
 	}
